@@ -49,7 +49,7 @@ func ledgerWorkload(c *fw.Ctx, strata []stratum, total int, mon func(e *exec, st
 func propC01() *fw.Prop {
 	return &fw.Prop{
 		ID: "C01", Level: "exploration",
-		Rule: "stratified seeded generator of executable scripts (DESIGN §4.1) + regression corpus; each successful run's postings are replayed in order on the starting sheet and every non-exempt account is checked against min(start, −largest granted overdraft) after every posting. A case is non-trivial when a non-exempt account is debited; distinct = (stratum, script shape skeleton, whether the final balance sits exactly on the bound).",
+		Rule:        "stratified seeded generator of executable scripts (DESIGN §4.1) + regression corpus; each successful run's postings are replayed in order on the starting sheet and every non-exempt account is checked against min(start, −largest granted overdraft) after every posting. A case is non-trivial when a non-exempt account is debited; distinct = (stratum, script shape skeleton, whether the final balance sits exactly on the bound).",
 		Assumptions: []string{trustedBase, "overdraft grants are read off the generator's own tree with the model's expression evaluator"},
 		Require:     []string{"runs_succeeded", "nontrivial_debiting_runs", "tight_cases", "stratum_repeat", "stratum_negbal", "stratum_save", "stratum_chains"},
 		Run: func(c *fw.Ctx) {
@@ -111,7 +111,7 @@ func hostileNames(c *fw.Ctx, startIdx int, n int, mon func(e *exec, stratum stri
 func propC02() *fw.Prop {
 	return &fw.Prop{
 		ID: "C02", Level: "exploration",
-		Rule: "same workload as C01 plus negative/zero caps, kept-heavy destinations and account names arriving through variables/metadata that are empty, the kept marker or outside the account grammar; every posting of every successful run is inspected (amount > 0, names non-empty / not the kept marker / named by the script, asset = asset of the producing statement, attributed by executing every prefix of the script). Non-trivial = successful run with ≥ 1 posting; distinct = (stratum, script shape skeleton).",
+		Rule:        "same workload as C01 plus negative/zero caps, kept-heavy destinations and account names arriving through variables/metadata that are empty, the kept marker or outside the account grammar; every posting of every successful run is inspected (amount > 0, names non-empty / not the kept marker / named by the script, asset = asset of the producing statement, attributed by executing every prefix of the script). Non-trivial = successful run with ≥ 1 posting; distinct = (stratum, script shape skeleton).",
 		Assumptions: []string{trustedBase},
 		Require:     []string{"postings_inspected", "postings_attributed", "stratum_kept", "stratum_caps", "stratum_hostile_names"},
 		Run: func(c *fw.Ctx) {
